@@ -182,8 +182,21 @@ fn corruptions(doc: &Value, salt: u64) -> Vec<(String, Value)> {
         // another live vertex not in the cell
         if let Some(other) = live_v.iter().map(|&i| doc["vertices"][i]["value"]["uuid"].clone()).find(|u| !list.contains(u)) {
             let mut d = doc.clone();
-            d["cell_vertices"][key][0] = other;
+            d["cell_vertices"][key][0] = other.clone();
             push(&mut out, format!("cell_vertices list {ci} with one vertex replaced by another live vertex"), d);
+            // D+2 distinct live vertices in one cell
+            let mut d = doc.clone();
+            d["cell_vertices"][key].as_array_mut().unwrap().push(other.clone());
+            push(&mut out, format!("cell_vertices list {ci} extended by another live vertex"), d);
+            let mut d = doc.clone();
+            d["cell_vertices"][key].as_array_mut().unwrap().insert(0, other);
+            push(&mut out, format!("cell_vertices list {ci} with another live vertex prepended"), d);
+        }
+        {
+            let mut d = doc.clone();
+            n += 1;
+            d["cell_vertices"][key].as_array_mut().unwrap().push(json!(fresh(n)));
+            push(&mut out, format!("cell_vertices list {ci} extended by an unknown vertex uuid"), d);
         }
         if let Some(k2) = cv.iter().find(|k2| *k2 != key) {
             let mut d = doc.clone();
@@ -467,7 +480,7 @@ pub fn meta() -> super::Meta {
     super::Meta {
         id: ID,
         level: "fault_enumeration",
-        rule: "case = a triangulation reached through the API (batch construction, then generated insertions, removals leaving vacated slot-map slots, flips, repair) with i32 vertex data and planted i32 cell data; (1) round trip through serde_json at the Tds level (the documented path for non-unit data) and at the DelaunayTriangulation<FastKernel,(),()> level: identical fingerprint incl. cell UUIDs and data, ==, identical validation levels, identical behaviour under a follow-up insert/remove script; (2) fault enumeration over the JSON document: for up to 6 vertices, 6 cells and 6 cell_vertices entries every single-field corruption (vacate / remove / duplicate records, replace / nil / duplicate UUIDs, coordinate := null, string, Infinity, NaN, bool, wrong arity, slot version parity, null value, delete / rename / shorten / extend / repeat / dangling / permuted / swapped / duplicated cell_vertices lists, missing or mistyped top-level fields, truncated text): the load must fail or the loaded structure must pass the independent L1 and L2 checks; evaluations = round trips + corrupted documents loaded; non-trivial = state with a removal or cell data, or a case whose corruptions were enumerated; distinct by the whole case",
+        rule: "case = a triangulation reached through the API (batch construction, then generated insertions, removals leaving vacated slot-map slots, flips, repair) with i32 vertex data and planted i32 cell data; (1) round trip through serde_json at the Tds level (the documented path for non-unit data) and at the DelaunayTriangulation<FastKernel,(),()> level: identical fingerprint incl. cell UUIDs and data, ==, identical validation levels, identical behaviour under a follow-up insert/remove script; (2) fault enumeration over the JSON document: for up to 6 vertices, 6 cells and 6 cell_vertices entries every single-field corruption (vacate / remove / duplicate records, replace / nil / duplicate UUIDs, coordinate := null, string, Infinity, NaN, bool, wrong arity, slot version parity, null value, delete / rename / shorten / extend (by a repeated, another live or an unknown vertex) / repeat / dangling / permuted / swapped / duplicated cell_vertices lists, missing or mistyped top-level fields, truncated text): the load must fail or the loaded structure must pass the independent L1 and L2 checks; evaluations = round trips + corrupted documents loaded; non-trivial = state with a removal or cell data, or a case whose corruptions were enumerated; distinct by the whole case",
         assumptions: &[
             "a corrupted document that happens to describe another consistent complex (e.g. a changed but unique UUID) may load",
             "cell UUIDs of cells created after loading are random, so the follow-up comparison ignores cell UUIDs",
